@@ -236,7 +236,9 @@ bool Instance::rewind() {
         return false;
     }
     if (env->done) {
+        // the last step only marked the end of the script; undo just that
         env->done = false;
+        return true;
     }
     return RewindScript(*env);
 }
